@@ -1,6 +1,6 @@
 (* C02 - simple-type validation and decoding follow XSD datatype semantics (Datatypes.v is the
    semantics for the covered types; these are the laws the property states about it). *)
-From XV Require Import Base Datatypes DatatypesProofs.
+From XV Require Import Base Datatypes DatatypesProofs Options OptionsProofs.
 
 Theorem C02_collapse_idem : forall s, ws_collapse (ws_collapse s) = ws_collapse s.
 Proof. exact collapse_idem. Qed.
@@ -73,3 +73,36 @@ Example C02_examples :
   decode (TDate false) [50; 48; 50; 49; 45; 48; 50; 45; 50; 57]%N = None /\ (* 2021-02-29 *)
   decode (TDate false) [50; 48; 50; 48; 45; 48; 50; 45; 50; 57; 90]%N = Some (VDate 2020 2 29).
 Proof. vm_compute. repeat split. Qed.
+
+(* decode options: they change the presentation of the value, never the verdict; the facets see the XSD value *)
+Theorem C02_options_verdict : forall c1 c2 t s, is_some (decode_opts c1 t s) = is_some (decode_opts c2 t s).
+Proof. exact same_verdict_any_options. Qed.
+Print Assumptions C02_options_verdict.
+
+Theorem C02_options_value : forall conv t s w,
+  decode_opts conv t s = Some w <-> exists v, decode t s = Some v /\ w = present conv v.
+Proof. exact value_is_presented. Qed.
+Print Assumptions C02_options_value.
+
+(* converting the items of a restricted list before its facets are checked (the code before fix 3f2fed5) makes the
+   verdict depend on the options *)
+Theorem C02_early_conversion_refuted :
+  exists item m fs s,
+    is_some (decode (TRestrict (TList item) m fs) s) = true /\
+    is_some (decode_opts to_text (TRestrict (TList item) m fs) s) = true /\
+    is_some (decode_list_early to_text item m fs s) = false.
+Proof. exact early_conversion_refuted. Qed.
+Print Assumptions C02_early_conversion_refuted.
+
+(* pattern facets of a chain of restrictions of a union: every level is in force *)
+Theorem C02_union_patterns_all_levels : forall (pat : Type) (pmatch : pat -> str -> bool) levels s,
+  union_check_all pat pmatch levels s = chain_ok pat pmatch levels s.
+Proof. exact union_check_all_spec. Qed.
+Print Assumptions C02_union_patterns_all_levels.
+
+(* the code before fix ad76452 enforced the outermost level only *)
+Theorem C02_union_patterns_first_refuted :
+  exists (levels : list (list bool)) s,
+    chain_ok bool (fun p _ => p) levels s = false /\ union_check_first bool (fun p _ => p) levels s = true.
+Proof. exact union_check_first_refuted. Qed.
+Print Assumptions C02_union_patterns_first_refuted.
